@@ -390,6 +390,17 @@ def plan_c14(pid, rng, quick):
         st["limits"] = ladder
         st["nowire"] = True
         plan.append(st)
+    # an established stream, one batch that brings many new dictionary values at once (refused by the middle limits while a
+    # dictionary message is being read), then small batches that fit again: a consumer that has refused must go on refusing
+    # recognisably (its reader is in a sticky error state), never resume with a dictionary it has lost
+    for signal in ("traces", "logs", "metrics"):
+        for col in (RAMP_COLS[signal][:2] if quick else RAMP_COLS[signal]):
+            for burst in ([3000] if quick else [600, 3000, 20000]):
+                bs = [ramp(signal, 200, 3, 0, col, nodump=False), ramp(signal, 100, 5, 0, col, nodump=False),
+                      ramp(signal, burst, burst, 1000, col), ramp(signal, 50, 5, 0, col, nodump=False),
+                      ramp(signal, 60, 8, 1000, col, nodump=False), ramp(signal, 30, 3, 0, col, nodump=False)]
+                plan.append({"id": "limit-burst/%s/%s/%d" % (signal, col, burst), "signal": signal, "opts": {}, "batches": bs,
+                             "props": [], "mode": 0, "nowire": True, "limits": ladder})
     # dictionary-heavy streams: retained dictionaries count against the limit
     for i in range(12 if quick else 300):
         signal = rng.choice(["traces", "logs", "metrics"])
@@ -430,9 +441,10 @@ def fixed_plans(pid):
         for f in sorted(os.listdir(d)):
             if f.startswith("finding-") and f.endswith(".json"):
                 obj = json.load(open(os.path.join(d, f)))
-                st = obj.get("stream", obj)
-                if isinstance(st, dict) and "batches" in st:
-                    out.append(dict(st, id="fixed/" + f))
+                sts = obj if isinstance(obj, list) else [obj.get("stream", obj)]
+                for k, st in enumerate(sts):
+                    if isinstance(st, dict) and "batches" in st:
+                        out.append(dict(st, id="fixed/%s%s" % (f, "#%d" % k if k else "")))
     return out
 
 def describe(evs, seq):
